@@ -354,6 +354,38 @@ def extent(ctx, rep, rule):
         rep.violation(rule, "floor", "only %d reads of decoder input were tracked, floor is 10" % n)
 
 
+# decoders of big-endian numbers: the last content octet is the least significant one, whatever the length
+_NUMERIC_DECODERS = ("ber::int::SnmpInt", "ber::counter32::SnmpCounter32", "ber::gauge32::SnmpGauge32", "ber::timeticks::SnmpTimeTicks",
+                     "ber::counter64::SnmpCounter64", "ber::uinteger32::SnmpUInteger32")
+
+
+def tail_cover(ctx, rep, rule):
+    """Dual of the extent rule for the numeric decoders: some read of the contents reaches the end of the element
+    (offset + extent >= h.length on every visit).  The last content octet is the least significant octet of the value for
+    every length, so a decoder whose reads stop short of it (e.g. at the first 8 octets) returns another number whenever
+    the encoding is longer - a Counter64 of 2^63 and more takes nine octets."""
+    facts = ctx.facts
+    res = numrun.run(ctx)
+    n = 0
+    for b in facts.body_list:
+        if not (b.impl_trait == "ber::BerDecoder" and b.name == "decode" and any(("<%s as " % d) in b.path for d in _NUMERIC_DECODERS)):
+            continue
+        d = res.by_body.get(b.path)
+        if d is None or d["error"]:
+            continue  # reported by the extent rule
+        cov = [o for o in d["obs"] if o["kind"] == "cover"]
+        n += 1
+        if not cov:
+            rep.inconclusive(rule, b.path + "|reads the last octet", "no read of the contents was tracked", b.loc())
+            continue
+        rep.check(rule, b.path + "|reads the last octet", any(o["ok"] for o in cov), "a read reaches h.length",
+                  "no read of the contents is shown to reach the end of the element (%s): the value does not depend on the last - least "
+                  "significant - octet for every length" % "; ".join("%s: %s" % (o["key"].split("|")[1][:40], o["detail"][:80]) for o in cov[:3]),
+                  b.loc(cov[0]["line"]), obligation=True)
+    if n < 3:
+        rep.violation(rule, "floor-numeric-decoders", "%d numeric decode impls found, floor is 3" % n)
+
+
 def hdr_contract(ctx, rep, rule):
     facts = ctx.facts
     scope = {"ber::header::BerHeader::from_ber", "ber::BerDecoder::from_ber", "<ber::option::SnmpOption<'a> as ber::BerDecoder<'a>>::from_ber",
@@ -694,6 +726,39 @@ def oid_entry(ctx, rep, rule):
                   "the request is sent although building the PDU failed", body.loc(), obligation=True)
 
 
+def hdr_extent(ctx, rep, rule):
+    """The extent a header declares is a function of the header's own octets: the `length` (and `tag`) of the BerHeader that
+    from_ber returns never depends on how much input follows.  A length computed from the size of the input (`i.len() - k`,
+    "up to the end of the enclosing element") makes the element's extent - and so the decoded value - depend on the octets
+    after it."""
+    facts = ctx.facts
+    body = facts.body("ber::header::BerHeader::from_ber")
+    if body is None:
+        rep.missing(rule, "BerHeader::from_ber")
+        return
+    rep.note_analysed("functions", [body.path])
+    prov = flow.Prov(body)
+    n = 0
+    def is_len(t):
+        if t[0] == "call" and (t[1] or "").split("::")[-1] == "len" and t[2] and flow.mentions(t[2][0], lambda x: x == ("arg", 1)):
+            return True
+        return t[0] == "un" and t[1] == "PtrMetadata" and flow.mentions(t[2], lambda x: x == ("arg", 1))
+    for blk in body.live_blocks():
+        for st_ in blk.stmts:
+            if st_["k"] == "assign" and st_["rv"]["k"] == "agg":
+                t = prov.rvalue(st_["rv"])
+                if t[0] == "agg" and (t[1] or "").endswith("BerHeader") and len(t) > 3:
+                    for f, ft in t[3]:
+                        if f not in ("length", "tag"):
+                            continue
+                        n += 1
+                        rep.check(rule, "BerHeader::from_ber|%s from header octets" % f, not flow.mentions(ft, is_len), "no dependence on the input's size",
+                                  "the header's %s is computed from the size of the input (%s): the element's extent depends on the octets that follow it" %
+                                  (f, flow.fmt(ft)[:120]), body.loc(blk.line if hasattr(blk, "line") else None), obligation=True)
+    if not n:
+        rep.inconclusive(rule, "BerHeader::from_ber|length from header octets", "the returned header aggregate was not found", body.loc())
+
+
 def hdr_reject(ctx, rep, rule):
     """Error discipline of the TLV header parser: BerHeader::from_ber refuses input only for lack of octets or for a length
     that does not fit usize - never because of the value of a content or length octet.  (Every definite-length header the
@@ -914,6 +979,109 @@ def oid_to_text_rejections(ctx, rep, rule):
                   "the conversion to text fails because of the value of an octet (%s): well-formed OIDs returned by an agent cannot be rendered" % flow.fmt(t)[:100],
                   body.loc(g.line), obligation=True)
     rep.info(rule, "String::try_from(&SnmpOid)|guarded error exits", str(n))
+
+
+def _root_var(body, op, depth=0):
+    """The variable an operand reads, through plain copies of temporaries (a local with one definition that is a use)."""
+    pl = op.get("move") or op.get("copy")
+    if pl is None or pl["p"]:
+        return None
+    l = pl["l"]
+    for _ in range(8):
+        defs = [st_["rv"] for blk in body.live_blocks() for st_ in blk.stmts if st_["k"] == "assign" and st_["place"]["l"] == l and not st_["place"]["p"]]
+        calls = [blk for blk in body.live_blocks() if blk.term and blk.term["k"] == "call" and blk.term["dest"]["l"] == l and not blk.term["dest"]["p"]]
+        if len(defs) == 1 and not calls and defs[0]["k"] in ("use", "cast"):
+            q = defs[0]["op"].get("move") or defs[0]["op"].get("copy")
+            if q is None or q["p"]:
+                return l
+            l = q["l"]
+            continue
+        return l
+    return l
+
+
+def _cmp_var(body, g, swapped):
+    """Root variable of the non-constant side of the comparison that feeds guard g."""
+    t = body.blocks[g.block].term
+    pl = t["discr"].get("move") or t["discr"].get("copy")
+    if pl is None:
+        return None
+    l = pl["l"]
+    for _ in range(4):
+        defs = [st_["rv"] for blk in body.live_blocks() for st_ in blk.stmts if st_["k"] == "assign" and st_["place"]["l"] == l and not st_["place"]["p"]]
+        if len(defs) != 1:
+            return None
+        rv = defs[0]
+        if rv["k"] == "bin" and rv.get("op") in ("Lt", "Le", "Gt", "Ge"):
+            return _root_var(body, rv["b"] if swapped else rv["a"])
+        if rv["k"] in ("use",) or (rv["k"] == "un" and rv.get("op") == "Not"):
+            q = rv["op"].get("move") or rv["op"].get("copy")
+            if q is None or q["p"]:
+                return None
+            l = q["l"]
+            continue
+        return None
+    return None
+
+
+def shift_guards(ctx, rep, rule):
+    """An overflow guard refuses only what overflows: when an error exit of a codec function is decided by comparing an
+    accumulator T with a constant (T >= c / T > c) and the same T is then shifted left by a constant k in an unsigned type
+    of w bits, the smallest refused value must lose bits in the shift (min << k > 2^w - 1).  A threshold one too low
+    refuses values whose shift is exact - representable sub-identifiers / lengths are rejected."""
+    facts = ctx.facts
+    n = 0
+    for body in facts.body_list:
+        if not (body.path.startswith("ber::") or body.path.startswith("<ber::")):
+            continue
+        shl = []
+        for blk in body.live_blocks():
+            for st_ in blk.stmts:
+                if st_["k"] == "assign" and st_["rv"]["k"] == "bin" and st_["rv"].get("op") == "Shl" and "const" in st_["rv"]["b"]:
+                    k = (st_["rv"]["b"]["const"].get("v") or {}).get("int")
+                    ty = facts.types[st_["place"]["ty"]] if st_["place"].get("ty") is not None else None
+                    if isinstance(k, int) and ty and ty.get("k") == "int" and not ty.get("signed"):
+                        shl.append((st_, k, ty["bits"]))
+        if not shl:
+            continue
+        prov = flow.Prov(body)
+        errs = flow.blocks_assigning_return(body, lambda rv: rv["k"] == "agg" and rv.get("vname") == "Err")
+        if not errs:
+            continue
+        ops = [(prov.operand(st_["rv"]["a"]), k, w, st_) for st_, k, w in shl]
+        for g, pol, tgt in flow.deciding_guards(body, prov, errs):
+            t = g.term
+            if not (t[0] == "bin" and t[1] in ("Lt", "Le", "Gt", "Ge")):
+                continue
+            a, b, op = t[2], t[3], t[1]
+            closed = lambda x: not flow.mentions(x, lambda y: y[0] not in ("const", "bin", "cast"))  # noqa: E731  (a constant expression)
+            swapped = False
+            if closed(a) and not closed(b):
+                a, b, op = b, a, {"Lt": "Gt", "Le": "Ge", "Gt": "Lt", "Ge": "Le"}[op]
+                swapped = True
+            if closed(a) or not closed(b):
+                continue
+            cv = cells.eval_term(b, lambda x: None)
+            if not isinstance(cv, int):
+                continue
+            if not pol:
+                op = {"Lt": "Ge", "Le": "Gt", "Gt": "Le", "Ge": "Lt"}[op]
+            if op not in ("Ge", "Gt"):
+                continue
+            lo = cv if op == "Ge" else cv + 1
+            # the compared value and the shifted value are the same variable (matched on MIR locals, through plain copies)
+            gv = _cmp_var(body, g, swapped)
+            if gv is None:
+                continue
+            for src, k, w, st_ in ops:
+                if _root_var(body, st_["rv"]["a"]) != gv:
+                    continue
+                n += 1
+                rep.check(rule, "%s|overflow guard before << %d" % (body.path, k), (lo << k) > (1 << w) - 1,
+                          "refuses only values whose shift overflows u%d" % w,
+                          "the guard refuses %d and above, but %d << %d = %d still fits u%d: representable values are rejected (threshold off by one)" %
+                          (lo, lo, k, lo << k, w), body.loc(g.line), obligation=True)
+    rep.info(rule, "overflow guards before constant shifts", str(n))
 
 
 def no_notimplemented_on_receive(ctx, rep, rule):
